@@ -102,6 +102,24 @@ example : (cycle CState.init env1).1.fetchMetadata = true := by decide
 example : cycleOuts (runLoop "c0" CState.init [.reaper none none, .offset env1, .metadata, .reaper (some []) (some ["g"]), .offset env1]) =
     runCycles CState.init [(false, env1), (true, env1)] := by decide
 
+/-- `Start` fetches once before any ticker exists, and that first fetch reads the metadata (the flag is
+    set beforehand): consumers are evaluated against real end offsets from the first moment.  (Tied by the
+    `K start` ops: the module's real Configure, Start — connecting by itself to sarama's mock brokers —,
+    the first tick of its real one-second ticker, Stop.) -/
+theorem start_reads_metadata_and_fetches_first (name : String) (env : Env) (envs : List Env) :
+    ∃ o, (startThenTicks name (env :: envs)).head? = some (LoopOut.cycled o) ∧ o.refreshed = true ∧
+      o = (cycle CState.init env).2 := by
+  refine ⟨(cycle CState.init env).2, ?_, ?_, rfl⟩
+  · simp [startThenTicks, runLoop, loopStep]
+  · rw [Proofs.Cluster.cycle_refreshed]
+    exact Proofs.Cluster.maybeUpdate_refreshed _ env rfl
+
+/-- the refresh intervals are the configured ones, else 10 s (offsets), 60 s (topics) and 0 = no reaper -/
+theorem refresh_intervals (a b c : Int) :
+    settings none none none = (10, 60, 0) ∧ settings (some a) (some b) (some c) = (a, b, c) ∧
+    settings (some a) none none = (a, 60, 0) ∧ settings none (some b) none = (10, b, 0) := by
+  simp [settings]
+
 /-- What the module is answered IS what the Kafka client answered: the shim between the module and
     `sarama.Client` (regenerated from helpers/sarama.go on every run) hands every call and every answer
     through unchanged and keeps no state of its own — asked of exactly its current leader, and every answer recorded as it was given. -/
